@@ -33,12 +33,18 @@ LEVEL_TEXT = ("Theorems (Props/C03.v), any field with 1+1/=0: the banded L D L^T
               "(loop invariant), row-by-row consistency of that system with 'A e[x] = s on the line's 5nx-4 edges' "
               "(22 field identities: rows 0..4 x first/middle/next-to-last/last block) under PEC at the two x-ends "
               "of the line, the write-back, hence: line equations hold exactly afterwards, an exact solution is a "
-              "fixed point of the whole kernel for every nu, and the kernel never writes a boundary edge.")
-LEVEL_NOTE = ("Partial: for the LINE smoothers 'last line exact' and affinity at the level of the WHOLE sweep are not "
-              "proved (line-level exactness is; for the point smoother both are proved); they rest on the correspondence of the generated kernels "
-              "with the compiled ones and on the searcher (manufactured solutions for all lr codes 0..7, nu 1..4). "
-              "Non-vanishing pivots are a hypothesis (the code's own assumption). The evaluation step of the block "
-              "proofs is re-checked by the kernel with the VM (vm_cast). Rounding not modelled.")
+              "fixed point of the whole kernel for every nu, and the kernel never writes a boundary edge; each line "
+              "kernel equals a schedule of line steps (Proofs/GSLineSweep.v), is LINEAR in (field, source) for every "
+              "nu (Proofs/GSLineAffineX/Y/Z.v) and leaves the line relaxed last -- (1,1) for odd nu, (n-1,n-1) for even "
+              "nu -- exact.")
+LEVEL_NOTE = ("All clauses of C03 are theorems about the regenerated kernels. Hypotheses: non-vanishing pivots of the "
+              "pivot-free factorisation (the code's own assumption; stated once thanks to matrix independence), and, "
+              "for the line smoothers' consistency / exactness / fixed point, PEC at the two ends of the line (the kernel "
+              "drops those couplings, as documented); linearity and the frame need neither. Combinations of line "
+              "directions (codes 4-7) are sequential applications of the proved kernels by smoothing(), whose dispatch "
+              "is regenerated (Gen/SolverHelpers.v) and tied by the correspondence and the searcher (which also runs in "
+              "the quick tier). The evaluation step of the block proofs is re-checked by the kernel with the VM "
+              "(vm_cast). Rounding not modelled.")
 TECHNIQUE = "Coq proof (loop invariants, field, VM-checked symbolic evaluation) over kernels regenerated from source"
 PROPS = 'Props/C03.v'
 SEARCH_IN_QUICK = True   # the sweeps and line smoothers are not covered by theorems
